@@ -304,6 +304,14 @@ func judge(c *vf.Ctx, r histResult) {
 			c.Count("reap_not_judged_victim_contact_too_old", 1)
 			continue
 		}
+		if rp.ReapedOK == 0 {
+			// the entry disappeared but rqlite's reaper removed nothing in the whole
+			// process during the watch (nodes_reaped_ok unchanged): the removal is the
+			// effect of a membership operation, not a reap, and says nothing about the
+			// reap timeout
+			c.Count("reap_not_judged_removed_without_a_reap", 1)
+			continue
+		}
 		judged++
 		c.Count("reaps_judged", 1)
 		min := rp.TimeoutMs - float64(reapSlack.Milliseconds())
